@@ -62,7 +62,7 @@ COMMON_ASSUME = [
 
 prop('C01',
      [CUR_LL, switch.r03_5, errmodels.r04_terms, errmodels.r04_1,
-      loglik.r01_2, loglik.r01_3, loglik.r01_4, caches.r08_5, copies.r19_3,
+      loglik.r01_2, loglik.r01_3, loglik.r01_4, loglik.r01_5, caches.r08_5, copies.r19_3,
       reduced.r08_1, reduced.r08_2],
      undecided=['that the mechanistic prediction is the model value at that '
                 'time (ODE solver)', 'float equality of time points'],
@@ -137,7 +137,7 @@ prop('C03',
                  'sensitivities is that score.')
 
 prop('C05',
-     [ndim.r05_1, popmodels.r05_2, popmodels.r05_5, popmodels.r17_4, cursors.r05_4, layout.r05_3, layout.r05_6, contracts.r05_7,
+     [ndim.r05_1, popmodels.r05_2, popmodels.r05_5, popmodels.r17_4, cursors.r05_4, layout.r05_3, layout.r05_6, contracts.r05_7, contracts.r05_8,
       reduced.r08_2],
      undecided=['numerical values at boundary points', '-inf vs nan'],
      assumptions=TERM_ASSUME,
@@ -231,7 +231,7 @@ prop('C09',
                  'SBML files equal the documented equations.')
 
 prop('C10',
-     [dosing.r10_1, dosing.r10_2, dosing.r10_5, mech.r11_1, problems.r14_3,
+     [dosing.r10_1, dosing.r10_2, dosing.r10_5, predictive.r10_6, mech.r11_1, problems.r14_3,
       problems.r14_4],
      undecided=['count and boundary arithmetic of the regimen table over '
                 'run-time floats (int(final_time // period), doses exactly '
@@ -312,7 +312,7 @@ prop('C13',
 prop('C17',
      [layout.r05_3, layout.r02_4, layout.r13_1, layout.r07_1,
       wrappers.r02_2, forward.r02_8, reduced.r08_4, reduced.r08_6, caches.r08_5, layout.r07_3, popmodels.r17_4, switch.r08_7, CUR_HIER,
-      CUR_LL, atomic.r11_9, atomic.r11_10],
+      CUR_LL, atomic.r11_9, atomic.r11_10, contracts.r17_5],
      undecided=['uniqueness of run-time names (string contents)',
                 'bounded enumeration of deeper compositions'],
      assumptions=COMMON_ASSUME + ['numpy reshape/flatten are C-ordered'],
@@ -329,7 +329,7 @@ prop('C17',
                  'count across set_n_ids.')
 
 prop('C14',
-     [problems.r14_1, problems.r14_2, problems.r14_3, problems.r14_4,
+     [problems.r14_1, problems.r14_2, problems.r14_3, problems.r14_4, problems.r14_6,
       copies.r19_3, copies.r11_3, mech.r11_1, layout.r02_9],
      undecided=['pandas dtype coercion', 'effect of unrelated rows beyond '
                 'the enumerated filters', 'numerical equality with the '
@@ -350,7 +350,7 @@ prop('C14',
                  'its likelihood copies it.')
 
 prop('C15',
-     [predictive.r15_2, predictive.r15_3, predictive.r15_4, layout.r02_3,
+     [predictive.r15_2, predictive.r15_3, predictive.r15_4, predictive.r15_5, layout.r02_3,
       CUR_PRED, rng.r16_1, rng.r16_2, rng.r16_5],
      undecided=['distributions of the samples', 'posterior row selection '
                 'semantics inside xarray', 'weights of the averaged model'],
